@@ -1,7 +1,7 @@
 """C17 - Encrypted assertions stay confidential and are validated like plain ones."""
 import ast
 
-from ..match import facts, Q, just, result_reaches
+from ..match import facts, Q, just, result_reaches, value_satisfies
 from ..srcmodel import attr_chain, call_name, unparse, norm_text, walk_no_nested
 from ..cfg import cfg_of, raised_class
 from ..dataflow import Origins
@@ -370,17 +370,22 @@ def r6_undecryptable(run):
               "sigver.SecurityContext.decrypt"):
         fi = m.func(q)
         cfg = cfg_of(fi, m)
+        k = 0
         for r in cfg.by_kind("return"):
             v = unparse(r.ast.value)
             if v == "enctext":
                 continue
+            k += 1
             gs = facts(cfg, r.id)
-            run.check(v == "_enctext" and
-                      Q("_enctext is not None and len(_enctext) > 0", True) in gs
-                      or {Q("_enctext is not None", True),
-                          Q("len(_enctext) > 0", True)} <= gs, "R6",
-                      fi.qual + "::" + norm_text(r.ast) + "@" +
-                      str(len([x for x in gs])), "a decrypted text is returned "
+
+            def nonempty(nm, fs):
+                return {Q("%s is not None" % nm, True),
+                        Q("len(%s) > 0" % nm, True)} <= fs
+            ok = isinstance(r.ast.value, ast.Name) and \
+                value_satisfies(cfg, v, r.id, nonempty)
+            run.check(ok, "R6",
+                      fi.qual + "::" + norm_text(r.ast) + "@%d" % k,
+                      "a decrypted text is returned "
                       "only when non-empty", "returns %s under %s" %
                       (v, sorted(gs)), fi.loc(r.ast))
     pa = m.func("response.AuthnResponse.parse_assertion")
